@@ -122,6 +122,7 @@ type dict interface {
 	GoSpec(kt string, table string, entries []string) string
 	GoDecPut(kt string, table string, entries []string) string
 	GoReencode(table string) string
+	GoReuse(kt string, bare bool, script []string) string
 	New(nk int, rest []string) string
 	GoOob(kt string, entries []string) string
 }
@@ -375,6 +376,9 @@ func init() {
 		"go.hm.decput":    func(a []string) string { return dictOf(a).GoDecPut(a[0], a[2], a[3:]) },
 		"go.hm.reencode":  func(a []string) string { return dictOf(a).GoReencode(a[2]) },
 		"go.hm.oob":       func(a []string) string { return dictOf(a).GoOob(a[0], a[2:]) },
+		"go.hm.reuse":     func(a []string) string { return dictOf(a).GoReuse(a[0], false, a[2:]) },
+		"go.hmb.reuse":    func(a []string) string { return dictOf(a).GoReuse(a[0], true, a[2:]) },
+		"go.hma.reuse":    func(a []string) string { return augOf(a).GoReuse(a[3:]) },
 		"hm.new": func(a []string) string {
 			nk, err := strconv.Atoi(a[2])
 			if err != nil {
@@ -811,6 +815,243 @@ func (r runner[K, V]) GoSpec(kt string, table string, entries []string) string {
 	return "ok"
 }
 
+// ---- stateful sequences over ONE variable and retained copies (aliasing is invisible to the value-level model)
+
+// dictVar abstracts one dictionary variable (HashmapE or bare Hashmap) behind closures.
+type dictVar[K keyC, V any] struct {
+	unmarshal func(c *boc.Cell) error
+	put       func(k K, v V)
+	keys      func() []K
+	values    func() []V
+	items     func() []tlb.HashmapItem[K, V]
+	get       func(k K) (V, bool)
+	marshal   func() (*boc.Cell, error)
+	clone     func() *dictVar[K, V] // plain struct copy: `a := d`
+}
+
+func newVarE[K keyC, V any](p *tlb.HashmapE[K, V]) *dictVar[K, V] {
+	return &dictVar[K, V]{
+		unmarshal: func(c *boc.Cell) error { return tlb.Unmarshal(c, p) },
+		put:       func(k K, v V) { p.Put(k, v) },
+		keys:      func() []K { return p.Keys() },
+		values:    func() []V { return p.Values() },
+		items:     func() []tlb.HashmapItem[K, V] { return p.Items() },
+		get:       func(k K) (V, bool) { return p.Get(k) },
+		marshal: func() (*boc.Cell, error) {
+			c := boc.NewCell()
+			return c, tlb.Marshal(c, *p)
+		},
+		clone: func() *dictVar[K, V] { c := *p; return newVarE(&c) },
+	}
+}
+
+func newVarBare[K keyC, V any](p *tlb.Hashmap[K, V]) *dictVar[K, V] {
+	return &dictVar[K, V]{
+		unmarshal: func(c *boc.Cell) error { return tlb.Unmarshal(c, p) },
+		put:       func(k K, v V) { p.Put(k, v) },
+		keys:      func() []K { return p.Keys() },
+		values:    func() []V { return p.Values() },
+		items:     func() []tlb.HashmapItem[K, V] { return p.Items() },
+		get:       func(k K) (V, bool) { return p.Get(k) },
+		marshal: func() (*boc.Cell, error) {
+			c := boc.NewCell()
+			return c, tlb.Marshal(c, *p)
+		},
+		clone: func() *dictVar[K, V] { c := *p; return newVarBare(&c) },
+	}
+}
+
+func (r runner[K, V]) listKV(ks []K, vs []V) string {
+	if len(ks) != len(vs) {
+		return fmt.Sprintf("inconsistent(%d keys,%d values)", len(ks), len(vs))
+	}
+	parts := make([]string, len(ks))
+	for i := range ks {
+		parts[i] = r.kc.show(ks[i]) + "=" + r.vc.show(vs[i])
+	}
+	return strings.Join(parts, " ")
+}
+
+func (r runner[K, V]) listItems(it []tlb.HashmapItem[K, V]) string {
+	parts := make([]string, len(it))
+	for i := range it {
+		parts[i] = r.kc.show(it[i].Key) + "=" + r.vc.show(it[i].Value)
+	}
+	return strings.Join(parts, " ")
+}
+
+// listVar renders a variable through every accessor and cross-checks them (Keys/Values vs Items vs Get).
+func (r runner[K, V]) listVar(d *dictVar[K, V]) string {
+	a, b := r.listKV(d.keys(), d.values()), r.listItems(d.items())
+	if a != b {
+		return "inconsistent(keys/values: " + a + " items: " + b + ")"
+	}
+	for _, it := range d.items() {
+		v, ok := d.get(it.Key)
+		if !ok || r.vc.show(v) != r.vc.show(it.Value) {
+			return "inconsistent(get " + r.kc.show(it.Key) + ")"
+		}
+	}
+	return a
+}
+
+// sortedByBits orders a rendered listing by ascending key bits (the slice order after Put is Compare order).
+func sortedByBits(kt, listing string) string {
+	if listing == "" {
+		return ""
+	}
+	return strings.Join(finalMap(kt, nil, strings.Fields(listing)), " ")
+}
+
+type reuseSnap[K keyC, V any] struct {
+	gen         int
+	copy        *dictVar[K, V]
+	ks          []K
+	vs          []V
+	it          []tlb.HashmapItem[K, V]
+	sCopy       string // rendering of the struct copy when last legitimately changed
+	sSlices     string // rendering of the retained Keys()/Values() results
+	sItems      string // rendering of the retained Items() result
+	checkSlices bool   // false once a Put through an alias of the same generation may legitimately have moved them
+}
+
+// GoReuse runs a script over ONE dictionary variable `d` and the values retained from it:
+//
+//	U|table|k=v+k=v…   Unmarshal the table into d (expected listing given, ascending key bits)
+//	P|k=v              Put on d
+//	C|i|k=v            Put on the i-th retained struct copy (always one of an earlier generation than d's current one)
+//	M                  Marshal d and every retained copy (must not change them; the output decodes to their mapping)
+//
+// Before every U the current state of d is retained: a struct copy, the Keys() and Values() slices, the Items() slice.
+// After every step every retained value must still render exactly as when it was retained (or legitimately updated).
+func (r runner[K, V]) GoReuse(kt string, bare bool, script []string) string {
+	var d *dictVar[K, V]
+	if bare {
+		d = newVarBare(new(tlb.Hashmap[K, V]))
+	} else {
+		d = newVarE(new(tlb.HashmapE[K, V]))
+	}
+	var snaps []*reuseSnap[K, V]
+	gen := 0
+	retain := func() {
+		s := &reuseSnap[K, V]{gen: gen, copy: d.clone(), ks: d.keys(), vs: d.values(), it: d.items(), checkSlices: true}
+		s.sCopy, s.sSlices, s.sItems = r.listVar(s.copy), r.listKV(s.ks, s.vs), r.listItems(s.it)
+		snaps = append(snaps, s)
+	}
+	verify := func(step int, what string) string {
+		for i, s := range snaps {
+			if s.gen == gen {
+				continue // still shares its arrays with d by Go's slice semantics
+			}
+			if got := r.listVar(s.copy); got != s.sCopy {
+				return fmt.Sprintf("FAIL retained-copy-changed step=%d(%s) copy=%d got=%s want=%s", step, what, i, clip(got), clip(s.sCopy))
+			}
+			if got := r.listItems(s.it); got != s.sItems {
+				return fmt.Sprintf("FAIL retained-items-changed step=%d(%s) copy=%d got=%s want=%s", step, what, i, clip(got), clip(s.sItems))
+			}
+			if s.checkSlices {
+				if got := r.listKV(s.ks, s.vs); got != s.sSlices {
+					return fmt.Sprintf("FAIL retained-keys-values-changed step=%d(%s) copy=%d got=%s want=%s", step, what, i, clip(got), clip(s.sSlices))
+				}
+			}
+		}
+		return ""
+	}
+	cur := "" // expected listing of d, ascending key bits
+	for step, tok := range script {
+		f := strings.Split(tok, "|")
+		switch f[0] {
+		case "U":
+			retain()
+			gen++
+			if err := d.unmarshal(cellOfTable(f[1])); err != nil {
+				return fmt.Sprintf("FAIL unmarshal step=%d %v", step, err)
+			}
+			want := ""
+			if f[2] != "" {
+				want = strings.Join(strings.Split(f[2], "+"), " ")
+			}
+			if got := r.listVar(d); got != want {
+				return fmt.Sprintf("FAIL reused-variable-decodes-wrong step=%d got=%s want=%s", step, clip(got), clip(want))
+			}
+			cur = want
+		case "P":
+			k, v := splitEntry(f[1])
+			d.put(r.kc.parse(k), r.vc.parse(v))
+			cur = strings.Join(finalMap(kt, strings.Fields(cur), []string{f[1]}), " ")
+			if got := sortedByBits(kt, r.listVar(d)); got != cur {
+				return fmt.Sprintf("FAIL put-on-variable step=%d got=%s want=%s", step, clip(got), clip(cur))
+			}
+			for _, s := range snaps {
+				if s.gen == gen {
+					s.checkSlices = false
+				}
+			}
+		case "C":
+			i, _ := strconv.Atoi(f[1])
+			if i >= len(snaps) || snaps[i].gen == gen {
+				continue
+			}
+			s := snaps[i]
+			k, v := splitEntry(f[2])
+			want := strings.Join(finalMap(kt, strings.Fields(s.sCopy), []string{f[2]}), " ")
+			s.copy.put(r.kc.parse(k), r.vc.parse(v))
+			got := r.listVar(s.copy)
+			if sortedByBits(kt, got) != want {
+				return fmt.Sprintf("FAIL put-on-copy step=%d got=%s want=%s", step, clip(got), clip(want))
+			}
+			s.sCopy = got
+			for _, o := range snaps { // Keys()/Values() results of the same generation share arrays with this copy
+				if o.gen == s.gen {
+					o.checkSlices = false
+					if o != s {
+						o.sCopy = r.listVar(o.copy) // a sibling struct copy may legitimately see the in-place insert
+					}
+				}
+			}
+			if got := sortedByBits(kt, r.listVar(d)); got != cur {
+				return fmt.Sprintf("FAIL put-on-copy-changed-variable step=%d got=%s want=%s", step, clip(got), clip(cur))
+			}
+		case "M":
+			all := []*dictVar[K, V]{d}
+			for _, s := range snaps {
+				all = append(all, s.copy)
+			}
+			for i, x := range all {
+				before := r.listVar(x)
+				c, err := x.marshal()
+				if err != nil {
+					return fmt.Sprintf("FAIL marshal step=%d var=%d %v", step, i, err)
+				}
+				if after := r.listVar(x); after != before {
+					return fmt.Sprintf("FAIL marshal-mutates-receiver step=%d var=%d before=%s after=%s", step, i, clip(before), clip(after))
+				}
+				var back *dictVar[K, V]
+				if bare {
+					back = newVarBare(new(tlb.Hashmap[K, V]))
+				} else {
+					back = newVarE(new(tlb.HashmapE[K, V]))
+				}
+				if before == "" && bare {
+					continue // an empty bare Hashmap writes nothing
+				}
+				if err := back.unmarshal(c); err != nil {
+					return fmt.Sprintf("FAIL unmarshal-of-marshal step=%d var=%d %v", step, i, err)
+				}
+				if got := r.listVar(back); got != sortedByBits(kt, before) {
+					return fmt.Sprintf("FAIL marshal-of-retained step=%d var=%d got=%s want=%s", step, i, clip(got), clip(sortedByBits(kt, before)))
+				}
+			}
+		default:
+			panic("bad reuse step " + tok)
+		}
+		if f := verify(step, f[0]); f != "" {
+			return f
+		}
+	}
+	return "ok"
+}
+
 // New: NewHashmapE(keys, values) with slices of any two lengths; Marshal and Items() each under their own recover.
 func (r runner[K, V]) New(nk int, rest []string) string {
 	var keys []K
@@ -1025,6 +1266,7 @@ func showExtraTree[X any](l *tlb.HashMapAugExtraList[X], show func(X) string) st
 }
 
 type augRunner interface {
+	GoReuse(tables []string) string
 	Decode(table string) string
 	DecodeInline(table string) string
 	GoReal(kt, table string, entries []string) string
@@ -1059,6 +1301,81 @@ func (r augR[K, V, X]) Decode(table string) string {
 	}
 	xl := d.VerifExtras()
 	return "ok " + es + " | X=" + r.xs(d.VerifRootExtra()) + " T=" + showExtraTree(&xl, r.xs)
+}
+
+// GoReuse: decode several augmented dictionaries through ONE HashmapAugE variable and ONE HashmapAug variable; the struct
+// copies and Keys()/Values() results retained from the earlier decodes must not change, and each decode must list
+// what a fresh variable lists.
+func (r augR[K, V, X]) GoReuse(tables []string) string {
+	var d tlb.HashmapAugE[K, V, X]
+	type kept struct {
+		copy tlb.HashmapAugE[K, V, X]
+		ks   []K
+		vs   []V
+		s    string
+	}
+	var keeps []kept
+	for step, t := range tables {
+		var fresh tlb.HashmapAugE[K, V, X]
+		errF := tlb.Unmarshal(cellOfTable(t), &fresh)
+		errD := tlb.Unmarshal(cellOfTable(t), &d)
+		if (errF == nil) != (errD == nil) {
+			return fmt.Sprintf("FAIL reused-variable-error-differs step=%d", step)
+		}
+		if errF != nil {
+			continue
+		}
+		want, _ := r.entries(fresh.Keys(), fresh.Values())
+		got, _ := r.entries(d.Keys(), d.Values())
+		if got != want {
+			return fmt.Sprintf("FAIL reused-variable-decodes-wrong step=%d got=%s want=%s", step, clip(got), clip(want))
+		}
+		for i, k := range keeps {
+			a, _ := r.entries(k.copy.Keys(), k.copy.Values())
+			b, _ := r.entries(k.ks, k.vs)
+			if a != k.s || b != k.s {
+				return fmt.Sprintf("FAIL retained-copy-changed step=%d copy=%d got=%s / %s want=%s", step, i, clip(a), clip(b), clip(k.s))
+			}
+		}
+		keeps = append(keeps, kept{copy: d, ks: d.Keys(), vs: d.Values(), s: got})
+	}
+	// the inline form: HashmapAug decodes into its receiver directly
+	var in tlb.HashmapAug[K, V, X]
+	var prev string
+	var prevKeys []K
+	var prevVals []V
+	for step, t := range tables {
+		c := cellOfTable(t)
+		if c.BitsAvailableForRead() < 1 || len(c.Refs()) < 1 {
+			continue
+		}
+		root := c.Refs()[0]
+		var fresh tlb.HashmapAug[K, V, X]
+		root.ResetCounters()
+		errF := tlb.Unmarshal(root, &fresh)
+		root.ResetCounters()
+		errD := tlb.Unmarshal(root, &in)
+		if (errF == nil) != (errD == nil) {
+			return fmt.Sprintf("FAIL reused-inline-variable-error-differs step=%d", step)
+		}
+		if errF != nil {
+			in = tlb.HashmapAug[K, V, X]{}
+			prevKeys = nil
+			continue
+		}
+		want, _ := r.entries(fresh.VerifKeys(), fresh.Values())
+		got, _ := r.entries(in.VerifKeys(), in.Values())
+		if got != want {
+			return fmt.Sprintf("FAIL reused-inline-variable-decodes-wrong step=%d got=%s want=%s", step, clip(got), clip(want))
+		}
+		if prevKeys != nil {
+			if b, _ := r.entries(prevKeys, prevVals); b != prev {
+				return fmt.Sprintf("FAIL retained-inline-keys-changed step=%d got=%s want=%s", step, clip(b), clip(prev))
+			}
+		}
+		prev, prevKeys, prevVals = got, in.VerifKeys(), in.Values()
+	}
+	return "ok"
 }
 
 func (r augR[K, V, X]) DecodeInline(table string) string {
@@ -1930,6 +2247,7 @@ func genC05(g *h.G) {
 	}
 	genBoundary(g)
 	genTypedLayer(g, g.Scale(200, 4000))
+	genReuse(g, g.Scale(400, 8000))
 	genAug(g, g.Scale(300, 4000))
 	genMalformed(g, g.Scale(800, 12000))
 	genReal(g)
@@ -2272,6 +2590,27 @@ func randExtra(g *h.G, xt string) (string, []*node) {
 	}
 }
 
+// augTree builds one HashmapAugE[K, Uint32, X] cell tree with random label forms and random extras.
+func augTree(g *h.G, kt, xt string, size int) *node {
+	n := ktWidth(kt)
+	keys, _ := keySet(g, kt, size)
+	sort.Strings(keys)
+	var spec []specEntry
+	for _, k := range keys {
+		// leaf: extra then value
+		xb, xr := randExtra(g, xt)
+		spec = append(spec, specEntry{key: k, val: &node{bits: xb + randBits(g, 32), refs: xr}})
+	}
+	xb, xr := randExtra(g, xt)
+	top := &node{bits: "0" + xb, refs: xr}
+	if len(spec) > 0 {
+		root := specTree(spec, n, randomForms(g), nil)
+		addForkExtras(g, root, xt)
+		top = &node{bits: "1" + xb, refs: append([]*node{root}, xr...)}
+	}
+	return top
+}
+
 // genAug: HashmapAugE[K, Uint32, X] trees (X = Uint32 or CurrencyCollection) with random label forms.
 func genAug(g *h.G, count int) {
 	for i := 0; i < count; i++ {
@@ -2280,28 +2619,84 @@ func genAug(g *h.G, count int) {
 		if g.Rng.Intn(3) == 0 {
 			xt = "CC"
 		}
-		n := ktWidth(kt)
-		keys, _ := keySet(g, kt, g.Pick(0, 1, 2, 3, 5, 9, 30))
-		sort.Strings(keys)
-		var spec []specEntry
-		for _, k := range keys {
-			// leaf: extra then value
-			xb, xr := randExtra(g, xt)
-			spec = append(spec, specEntry{key: k, val: &node{bits: xb + randBits(g, 32), refs: xr}})
-		}
-		xb, xr := randExtra(g, xt)
-		top := &node{bits: "0" + xb, refs: xr}
-		if len(spec) > 0 {
-			root := specTree(spec, n, randomForms(g), nil)
-			addForkExtras(g, root, xt)
-			top = &node{bits: "1" + xb, refs: append([]*node{root}, xr...)}
-		}
+		top := augTree(g, kt, xt, g.Pick(0, 1, 2, 3, 5, 9, 30))
 		if g.Rng.Intn(6) == 0 {
 			mutateTree(g, top)
 			g.Count("aug_mutated")
 		}
 		g.Count("aug_trees_" + xt)
 		g.Emit("hma.decode", kt, "U32", xt, tableOf(top))
+	}
+	for i := 0; i < count/4; i++ { // several dictionaries through one variable
+		kt := augKeyTypes[g.Rng.Intn(len(augKeyTypes))]
+		args := []string{kt, "U32", "U32"}
+		for j := 2 + g.Rng.Intn(3); j > 0; j-- {
+			args = append(args, tableOf(augTree(g, kt, "U32", g.Pick(1, 2, 3, 5, 9))))
+		}
+		g.Count("reuse_aug_sequences")
+		g.Emit("go.hma.reuse", args...)
+	}
+}
+
+// genReuse: stateful sequences over one dictionary variable and the values retained from it (see GoReuse).
+func genReuse(g *h.G, count int) {
+	for i := 0; i < count; i++ {
+		kt := c05KeyWeights[g.Rng.Intn(len(c05KeyWeights))]
+		n := ktWidth(kt)
+		bare := g.Rng.Intn(3) == 0
+		var script []string
+		nU := 0
+		// sizes so that a later dictionary is smaller than, as large as, and larger than an earlier one
+		sizes := [][]int{{5, 2, 5, 9}, {3, 3, 1, 6}, {8, 4, 8, 2, 12}, {1, 1, 2}, {6, 6, 6}, {2, 7, 3}}[g.Rng.Intn(6)]
+		randEntry := func() string {
+			ks, _ := keySet(g, kt, 1)
+			return keyText(kt, ks[0]) + "=" + strconv.FormatUint(uint64(uint32(g.U64())), 10)
+		}
+		for _, size := range sizes {
+			if size == 0 && bare {
+				size = 1
+			}
+			keys, _ := keySet(g, kt, size)
+			sort.Strings(keys)
+			var spec []specEntry
+			var entries []string
+			for _, k := range keys {
+				vtext, vnode := randValue(g, "U32", 0)
+				spec = append(spec, specEntry{key: k, val: vnode})
+				entries = append(entries, keyText(kt, k)+"="+vtext)
+			}
+			root := specTree(spec, n, randomForms(g), nil)
+			top := root
+			if !bare {
+				top = hashmapE(root)
+			}
+			script = append(script, "U|"+tableOf(top)+"|"+strings.Join(entries, "+"))
+			nU++
+			for j := g.Rng.Intn(3); j > 0; j-- {
+				switch g.Rng.Intn(4) {
+				case 0, 1:
+					e := randEntry()
+					if len(entries) > 0 && g.Rng.Intn(3) == 0 { // replace an existing key
+						k, _ := splitEntry(entries[g.Rng.Intn(len(entries))])
+						_, v := splitEntry(e)
+						e = k + "=" + v
+					}
+					script = append(script, "P|"+e)
+				case 2:
+					script = append(script, fmt.Sprintf("C|%d|%s", g.Rng.Intn(nU), randEntry()))
+				default:
+					script = append(script, "M")
+				}
+			}
+		}
+		script = append(script, "M")
+		if bare {
+			g.Count("reuse_sequences_bare")
+			g.Emit("go.hmb.reuse", append([]string{kt, "U32"}, script...)...)
+		} else {
+			g.Count("reuse_sequences_hashmapE")
+			g.Emit("go.hm.reuse", append([]string{kt, "U32"}, script...)...)
+		}
 	}
 }
 
